@@ -2,4 +2,4 @@ package checks
 
 import "verif/harness/core"
 
-var All = []core.Check{C01, C02, C03, C04, C05, C06, C08, C09, C10, C12, C13, C14, C15, C16, C18, C19, C20}
+var All = []core.Check{C01, C02, C03, C04, C05, C06, C07, C08, C09, C10, C12, C13, C14, C15, C16, C18, C19, C20}
